@@ -47,7 +47,7 @@ def run_shard(args):
     with open(inp, 'w') as f:
         for c in case_lines:
             f.write('\n'.join(c) + '\n')
-    env = dict(os.environ, ASAN_OPTIONS='detect_leaks=0:abort_on_error=0:allocator_may_return_null=1', UBSAN_OPTIONS='print_stacktrace=1')
+    env = dict(os.environ, ASAN_OPTIONS='detect_leaks=0:abort_on_error=0:allocator_may_return_null=1:max_malloc_fill_size=4194304:malloc_fill_byte=190', UBSAN_OPTIONS='print_stacktrace=1')
     with open(obs, 'w') as fo:
         if stdin_mode:
             with open(inp) as fi:
